@@ -751,6 +751,8 @@ from enum import Enum
 from pathlib import Path
 from typing import Annotated, Dict, List, Optional, Union
 from experimaestro import Config, Constant, LightweightTask, Meta, Param, Task, pathgenerator
+from experimaestro import param, option, pathoption
+from experimaestro.annotations import constant
 from experimaestro.core.types import Any as XAny
 '''
 
@@ -1262,7 +1264,9 @@ def gen_lib(rng, hist=False):
             args.append({"name": f"a{i}_ign", "ty": T("path") if kind == "path" else T(kind[5:]), "meta": kind != "path",
                          "default": None, "generator": False, "constant": False})
         mro = [i] + (classes[parent]["mro"] if parent is not None else [BASE])
-        classes.append({"name": f"G{i}", "base": base, "parent": parent, "args": args, "mro": mro, "own": [a for a in args if a["name"] not in used]})
+        classes.append({"name": f"G{i}", "base": base, "parent": parent, "args": args, "mro": mro, "own": [a for a in args if a["name"] not in used],
+                        # the older public way of declaring parameters: class decorators @param / @option / @pathoption / @constant
+                        "deco": rng.random() < 0.3})
     return classes
 
 
@@ -1273,6 +1277,26 @@ def render_lib(P, tag, classes, defaults):
             "_W = _H.World({0: _L.E0, 1: _L.E1}, {}, {})"]
     for i, c in enumerate(classes):
         par = classes[c["parent"]]["name"] if c["parent"] is not None else c["base"]
+        if c.get("deco"):
+            body.append("\n")
+            for a in reversed(c["own"]):   # decorators apply bottom-up: the declaration order stays the one of `own`
+                inner = a["ty"]["t"] if a["ty"]["k"] == "opt" else a["ty"]
+                ann = render_ty(inner, names)
+                extra = ", required=False" if a["ty"]["k"] == "opt" else ""
+                if a["default"] is not None:
+                    dv = f"_H.build(_json.loads({json.dumps(json.dumps(defaults[a['name']]))}), _W)"
+                if a["generator"]:
+                    body.append(f"@pathoption(\"{a['name']}\", \"{a['name']}.txt\")")
+                elif a["constant"]:
+                    body.append(f"@constant(\"{a['name']}\", {dv}, type={ann})")
+                else:
+                    deco = "option" if a["meta"] else "param"
+                    d = f", default={dv}" if a["default"] is not None else ""
+                    body.append(f"@{deco}(\"{a['name']}\", type={ann}{d}{extra})")
+            body.append(f"class {c['name']}({par}):\n    __xpmid__ = \"{P.name}.{tag}.g{i}\"")
+            if c["base"] in ("Task", "LightweightTask"):
+                body.append("    def execute(self):\n        pass")
+            continue
         body.append(f"\n\nclass {c['name']}({par}):\n    __xpmid__ = \"{P.name}.{tag}.g{i}\"")
         for a in c["own"]:
             ann = render_ty(a["ty"], names)
